@@ -54,9 +54,12 @@ def panic(ex, what):
 REG = {}
 
 
-def stub(*names):
+def stub(*names, override=False):
     def deco(fn):
         for n in names:
+            if n in REG and not override and REG[n].__module__ == fn.__module__:
+                # a second registration in the same module silently replaces a (possibly more precise) model
+                raise RuntimeError('stub %s registered twice in %s' % (n, fn.__module__))
             REG[n] = fn
         return fn
     return deco
@@ -446,6 +449,31 @@ def iter_next(ex, itv):
         c = Cell(clo, 'map-closure')
         res = call_closure(ex, clo, [Ref(c, (), True), Agg('tuple', '', None, (item.fields[0],))])
         return Native('Map', (inner2, c.v)), some(res)
+    if isinstance(itv, Native) and itv.rty == 'Flatten':
+        # flatten over an iterator of Options (by reference or by value): None entries are skipped
+        inner = itv.state
+        while True:
+            inner, item = iter_next(ex, inner)
+            if is_variant(item, 'None'):
+                return Native('Flatten', inner, itv.ident), NONE
+            x = item.fields[0]
+            v = ex.load(x) if isinstance(x, Ref) else x
+            if is_variant(v, 'Some'):
+                return Native('Flatten', inner, itv.ident), some(Ref(x.cell, x.path + (0,), x.mut) if isinstance(x, Ref) else v.fields[0])
+            if not is_variant(v, 'None'):
+                raise Unsupported('flatten over %r' % (v,))
+    if isinstance(itv, Native) and itv.rty == 'QTryIter':
+        # crossbeam's Receiver::try_iter(): next() = try_recv().ok(); batches of more than 2 entries are cut (bound)
+        n = itv.state
+        h = ex.stubs.get('Receiver::try_recv')
+        if h is None:
+            raise Unsupported('try_iter outside the queue model')
+        r = h(ex, [None], 'Receiver::try_recv')
+        if is_variant(r, 'Ok'):
+            if n >= 2:
+                raise PathCut('try_iter batch longer than 2')
+            return Native('QTryIter', n + 1, itv.ident), some(r.fields[0])
+        return itv, NONE
     raise Unsupported('next() on %r' % (itv,))
 
 
@@ -470,6 +498,11 @@ def into_iter(ex, args, callee):
         if isinstance(inner, Vec):
             return slice_iter(ex, [v], callee)
     raise Unsupported('into_iter of %r' % (v,))
+
+
+@stub('<* as Iterator>::flatten')
+def iter_flatten(ex, args, callee):
+    return Native('Flatten', args[0], fresh_id())
 
 
 @stub('<* as Iterator>::enumerate')
@@ -833,7 +866,7 @@ def option_map(ex, args, callee):
     return NONE
 
 
-@stub('str::trim_end', 'str::trim_start', 'str::trim', 'str::trim_end_matches', 'str::trim_start_matches', 'str::trim_matches')
+@stub('str::trim_end', 'str::trim_start', 'str::trim', 'str::trim_start_matches', 'str::trim_matches')
 def str_trim(ex, args, callee):
     """Abstract strings: either nothing is trimmed (same string) or the result is a strictly shorter, different string."""
     s0 = as_str(ex, args[0])
@@ -842,6 +875,59 @@ def str_trim(ex, args, callee):
     n = ex.fresh('len_trimmed', 64)
     ex.assume(z3.ULT(n, s0.length()))
     return Str((Atom('trimmed#%d' % fresh_id(), n),), 'str')
+
+
+@stub('mem::drop')
+def mem_drop(ex, args, callee):
+    ex.drop_value(args[0])
+    return UNIT
+
+
+@stub('OnceCell::new', 'OnceLock::new')
+def oncecell_new(ex, args, callee):
+    return Native('OnceCell', Cell(None, 'once-cell'), fresh_id())
+
+
+@stub('OnceCell::get_or_init', 'OnceLock::get_or_init')
+def oncecell_get_or_init(ex, args, callee):
+    c = ex.deref_all(args[0])
+    if not (isinstance(c, Native) and c.rty == 'OnceCell'):
+        raise Unsupported('get_or_init on %r' % (c,))
+    if c.state.v is None:
+        c.state.v = Cell(call_callable(ex, args[1], []), 'once-value')
+    return Ref(c.state.v, (), False)
+
+
+@stub('OnceCell::get', 'OnceLock::get')
+def oncecell_get(ex, args, callee):
+    c = ex.deref_all(args[0])
+    if not (isinstance(c, Native) and c.rty == 'OnceCell'):
+        raise Unsupported('get on %r' % (c,))
+    return NONE if c.state.v is None else some(Ref(c.state.v, (), False))
+
+
+@stub('OnceCell::set', 'OnceLock::set')
+def oncecell_set(ex, args, callee):
+    c = ex.deref_all(args[0])
+    if c.state.v is None:
+        c.state.v = Cell(args[1], 'once-value')
+        return ok(UNIT)
+    return err(args[1])
+
+
+@stub('mem::replace')
+def mem_replace(ex, args, callee):
+    old = ex.load(args[0])
+    ex.store(args[0], args[1])
+    return old
+
+
+@stub('mem::swap')
+def mem_swap(ex, args, callee):
+    a, b = ex.load(args[0]), ex.load(args[1])
+    ex.store(args[0], b)
+    ex.store(args[1], a)
+    return UNIT
 
 
 @stub('Option::map_or')
@@ -1140,7 +1226,7 @@ def iter_sum(ex, args, callee):
 _collect_plain = iter_collect
 
 
-@stub('<* as Iterator>::collect')
+@stub('<* as Iterator>::collect', override=True)
 def iter_collect2(ex, args, callee):
     m = re.search(r'collect::<(Option|Result)<Vec<(.*?)>(?:, (.*))?>>$', callee.strip())
     if not m:
@@ -1418,6 +1504,18 @@ def int_method(ex, args, callee):
     if meth == 'abs_diff':
         lt = z3.ULT(a.t, b.t)
         return Int(z3.If(lt, b.t - a.t, a.t - b.t), a.ty)
+    if meth in ('ilog10', 'ilog2', 'checked_ilog10', 'checked_ilog2'):
+        bits, signed = INT_TYPES[a.ty]
+        nonpos = (a.t <= 0) if signed else (a.t == 0)
+        if ex.choose_bool(nonpos):
+            if meth.startswith('checked'):
+                return NONE
+            panic(ex, ('ilog-of-zero', callee))
+        # the logarithm itself: an opaque function of the argument, bounded by the bit width
+        r = ex.fresh('ilog', 32)
+        ex.assume(z3.ULE(r, 19 if meth.endswith('10') else bits - 1))
+        v = Int(r, 'u32')
+        return some(v) if meth.startswith('checked') else v
     if meth == 'pow' or meth == 'leading_zeros' or meth == 'count_ones':
         raise Unsupported('integer method ' + meth)
     raise Unsupported('integer method %s::%s' % (ty, meth))
@@ -1426,7 +1524,7 @@ def int_method(ex, args, callee):
 for _t in ('u8', 'u16', 'u32', 'u64', 'u128', 'usize', 'i8', 'i16', 'i32', 'i64', 'i128', 'isize'):
     for _m in ('checked_add', 'checked_sub', 'checked_mul', 'checked_div', 'wrapping_add', 'wrapping_sub', 'wrapping_mul',
                'saturating_add', 'saturating_sub', 'saturating_mul', 'overflowing_add', 'overflowing_sub', 'overflowing_mul',
-               'min', 'max', 'abs_diff'):
+               'min', 'max', 'abs_diff', 'ilog10', 'ilog2', 'checked_ilog10', 'checked_ilog2'):
         REG['%s::%s' % (_t, _m)] = int_method
         REG['num::%s' % _m] = int_method
 
@@ -1558,6 +1656,8 @@ def _tls_init_fn(ex, key_name):
     for n in names[i + 1:i + 4]:
         if re.sub(r'#\d+$', '', n).endswith('__rust_std_internal_init_fn'):
             return n
+        if re.sub(r'#\d+$', '', n).endswith('__RUST_STD_INTERNAL_INIT'):
+            return n            # `const { .. }` initialiser: a const item, evaluated like any other
     raise Unsupported('initialiser of thread-local %s not found (const-initialised or unusual thread_local! form)' % key_name)
 
 
@@ -1570,7 +1670,13 @@ def localkey_with(ex, args, callee):
     if key.state not in tls:
         # first access on this thread: run the initialiser (one thread per explored path)
         ex.stats.stubs.add('thread_local!(%s): per-thread slot, lazily initialised on first access' % key.state)
-        tls[key.state] = Cell(ex.call(_tls_init_fn(ex, key.state), []), 'tls:' + key.state)
+        init = _tls_init_fn(ex, key.state)
+        if ex.prog.funcs[init].kind == 'fn':
+            v0 = ex.call(init, [])
+        else:
+            from .executor import Frame
+            v0 = Frame(ex, ex.prog.funcs[init]).run([])
+        tls[key.state] = Cell(v0, 'tls:' + key.state)
     r = call_callable(ex, args[1], [Ref(tls[key.state], (), False)])
     return ok(r) if 'try_with' in callee else r
 
